@@ -1087,9 +1087,14 @@ def run(ctx):
                     box=[bx0, by0, bx1, by1], how=tag)
         cm.mark(base)
         if not model:
+            # the corners as a caller may hold them: Python floats, numpy scalars, whole numbers as int
+            how_num = rng.choice(["float", "float", "numpy", "int"])
+            args = [np.float64(v) if how_num == "numpy" else int(v) if how_num == "int" and v == int(v) else v
+                    for v in box]
+            base["box_types"] = [type(v).__name__ for v in args]
             try:
                 with np.errstate(all="ignore"):
-                    c, exc = g.clip(bx0, by0, bx1, by1), None
+                    c, exc = g.clip(*args), None
             except Exception as e:
                 c, exc = None, e
             ctx.count(("clip-oracle-only", dt.name, c is None, min(nrows, 50) // 10, min(ncols, 50) // 10))
@@ -1329,10 +1334,8 @@ def run(ctx):
                 model_budget[0] -= small2
                 case_clip(c, cvals, box2, f"{tag}; clip of a clip, corner kinds {kinds2}", model=small2,
                           spec=None if cvals.size <= 2000 else
-                          {"grid": Meta.of(c).js(), "values": "clip of the cell-index grid", "parent": base_of(spec, g)})
-
-    def base_of(spec, g):
-        return spec if spec is not None else {"grid": Meta.of(g).js()}
+                          {"grid": Meta.of(c).js(), "values": "clip of parent_grid to parent_box",
+                           "parent_grid": spec if spec is not None else grid_spec(g, vals), "parent_box": list(box)})
 
     def lattice_side(cls):
         return {0: rng.randint(1, 7), 1: rng.randint(8, 30), 2: rng.randint(31, 160), 3: rng.randint(161, 850)}[cls]
@@ -1444,16 +1447,24 @@ def run(ctx):
             case_save_big(dtb, spec["nrows"], spec["ncols"], tuple(spec["geo"]),
                           float(spec["nodata"]) if dtb.kind == "f" else int(spec["nodata"]), spec["value_seed"], tag)
         elif kind == "clip":
-            if spec.get("values") == "cell-index":
-                js = spec["grid"]
-                g, _ = build_grid({"grid": js, "patterns": [0] * (js["nrows"] * js["ncols"])})
-                vals = np.arange(js["nrows"] * js["ncols"]).reshape(js["nrows"], js["ncols"]).astype(js["dtype"])
-                g.data = vals
+            def clip_parent(sp):
+                if sp.get("values") == "cell-index":
+                    js = sp["grid"]
+                    g_, _ = build_grid({"grid": js, "patterns": [0] * (js["nrows"] * js["ncols"])})
+                    v_ = np.arange(js["nrows"] * js["ncols"]).reshape(js["nrows"], js["ncols"]).astype(js["dtype"])
+                    g_.data = v_
+                    return g_, v_, {"grid": js, "values": "cell-index"}
+                g_, v_ = build_grid(sp)
+                return g_, v_, None
+            if "parent_box" in spec:        # a clip of a clip
+                g0, _, _ = clip_parent(spec["parent_grid"])
+                g = g0.clip(*spec["parent_box"])
+                vals = np.ascontiguousarray(g.data).copy()
                 case_clip(g, vals, tuple(spec["box"]), tag, model=False,
-                          spec={"grid": js, "values": "cell-index"})
+                          spec={k_: spec[k_] for k_ in ("grid", "values", "parent_grid", "parent_box")})
             else:
-                g, vals = build_grid(spec)
-                case_clip(g, vals, tuple(spec["box"]), tag)
+                g, vals, sp = clip_parent(spec)
+                case_clip(g, vals, tuple(spec["box"]), tag, model=sp is None, spec=sp)
         elif kind == "catchment":
             case_catchment(spec["nrows"], spec["ncols"], spec["flowdir"], spec["outlet"], spec["inlets"],
                            spec.get("delineate", True), tuple(spec.get("geo", [1.0, 0.0, 0.0, 0, ""])), tag)
